@@ -32,12 +32,25 @@ var c15Reqs = []c15Req{
 	{"events-abstract", `subscription S { events(n:1) { id nodes(n:2) { id ... on A { aOnly } } u { ... on B { bOnly } } } }`, "S", "ok", "events", nil},
 	{"ticks", `subscription { ticks { s sNN i } }`, "", "ok", "ticks", nil},
 	{"alias", `subscription { e: events { id } }`, "", "ok", "e", nil},
+	{"two-roots-directives", `subscription($s:Boolean!,$i:Boolean!){ ticks @skip(if:$s) @include(if:$i) { s } events { id name } }`, "", "ok", "events", map[string]interface{}{"s": false, "i": false}},
+	{"op-directive", `subscription S @live { events { id } }`, "S", "ok", "events", nil},
 	{"vars", `subscription($k:Kind, $st:Stamp, $n:Int){ events(k:$k, st:$st, n:$n) { id kind nodes(n:$n) { id } } }`, "", "ok", "events", map[string]interface{}{"k": "BETA", "st": "s1", "n": 1}},
 	{"syntax", `subscription { events { id `, "", "syntax", "", nil},
 	{"validation", `subscription { events { nope } }`, "", "validation", "", nil},
 	{"unknown-op", `subscription A { events { id } }`, "B", "unknown-op", "", nil},
 	{"unknown-op-anonymous", `subscription { events { id } }`, "Nope", "unknown-op", "", nil},
 }
+
+// the pool lists the requests that subscribe successfully first
+var c15OKReqs = func() int {
+	n := 0
+	for _, r := range c15Reqs {
+		if r.Kind == "ok" {
+			n++
+		}
+	}
+	return n
+}()
 
 type C15Scn struct {
 	Req        int      `json:"req"`
@@ -89,9 +102,9 @@ func (p c15) Gen(seed uint64, enum int, tier string) json.RawMessage {
 		return mustJSON(s)
 	}
 	r := NewRNG(seed)
-	s.Req = r.Intn(5)
+	s.Req = r.Intn(c15OKReqs)
 	if r.Chance(12) {
-		s.Req = 5 + r.Intn(4)
+		s.Req = c15OKReqs + r.Intn(len(c15Reqs)-c15OKReqs)
 	}
 	if r.Chance(12) {
 		s.SubMode = c15SubModes[r.Intn(len(c15SubModes))]
@@ -148,7 +161,7 @@ func (c15) Shrink(scn json.RawMessage) []json.RawMessage {
 		t.BothReady = false
 		out = append(out, mustJSON(t))
 	}
-	if s.Req != 3 && s.Req < 5 {
+	if s.Req != 3 && s.Req < c15OKReqs {
 		t := s
 		t.Req = 3
 		out = append(out, mustJSON(t))
@@ -264,6 +277,7 @@ func (c15) Run(t TestingT, scn json.RawMessage, tape *Tape) *Outcome {
 		w.SubSource = func(p graphql.ResolveParams) (interface{}, error) {
 			if cs := Cur(); cs != nil {
 				cs.Gate("sub", "client:subscribe-resolver", "")
+				cs.Note("sub", "sub:field", PathString(p.Info.Path)+" "+jsonOf(p.Args))
 			}
 			switch sc.SubMode {
 			case "err":
@@ -442,6 +456,20 @@ func (c15) Run(t TestingT, scn json.RawMessage, tape *Tape) *Outcome {
 				o.Violate("C15/goroutine-leak", "after cancellation a goroutine started for the subscription is still blocked in %s (consumer=%s, received %d of %d forwarded events)", l, sc.Consumer, nGot, sent)
 				break
 			}
+		}
+	}
+	// the subscription is taken out on the request's (included) root field, with
+	// the coerced arguments
+	for _, e := range s.Trace {
+		if e.Site != "sub:field" {
+			continue
+		}
+		field, args, _ := strings.Cut(e.Info, " ")
+		if rq.Root != "" && field != rq.Root {
+			o.Violate("C15/wrong-field-subscribed", "the Subscribe resolver of %q was called, the request's root field is %q", field, rq.Root)
+		}
+		if want := `{"k":"b","n":1,"st":"stamp\u003cs1\u003e"}`; rq.Name == "vars" && args != want {
+			o.Violate("C15/subscribe-args", "the Subscribe resolver received %s, the coerced arguments are %s", args, want)
 		}
 	}
 	keepsReading := sc.Consumer != "stops"
